@@ -647,7 +647,7 @@ def add_common_arguments(p: argparse.ArgumentParser) -> None:
 def add_subprojects_argument(p: argparse.ArgumentParser, name: str = None) -> None:
     helpstr = 'Patterns of subprojects to operate on (default: all)'
     if name:
-        p.add_argument(name, dest='subprojects', metavar='pattern', nargs=1, action='append',
+        p.add_argument(name, dest='subprojects', metavar='pattern', action='append',
                        default=[], help=helpstr)
     else:
         p.add_argument('subprojects', metavar='pattern', nargs='*', default=[],
